@@ -29,7 +29,14 @@ for pid in sys.argv[1:]:
                "check_exit": int(rc.group(1)) if rc else None, "violation_keys": keys[:10], "confirmed": bool(confirmed),
                "caught": bool(rc and rc.group(1) == "1")}
         print(json.dumps(res))
-        d = V / "seeded" / ("%s-%d" % (pid, n))
+        # first free (or identical) slot under seeded/
+        k = 1
+        while True:
+            d = V / "seeded" / ("%s-%d" % (pid, k))
+            if not d.exists() or (d / "patch.diff").read_text() == patch.read_text():
+                break
+            k += 1
+        res["slot"] = d.name
         if confirmed:
             d.mkdir(parents=True, exist_ok=True)
             shutil.copy(patch, d / "patch.diff")
@@ -41,6 +48,11 @@ for pid in sys.argv[1:]:
                     "ran": ["tools/trymutant.sh %s patch.diff demo.py %s  (fresh worktree of /repo HEAD: demo on clean tree, "
                             "apply patch, demo again, existing test suite, VERIF_REPO=<worktree> bin/check %s)" % (pid, tier, pid)],
                     "result": res}
+            if (d / "meta.json").exists():
+                old = json.loads((d / "meta.json").read_text())
+                for key in ("summary", "breaks", "needs_to_manifest"):
+                    if key in old and not str(old[key]).startswith("see NOTES"):
+                        meta[key] = old[key]
             (d / "meta.json").write_text(json.dumps(meta, indent=1) + "\n")
         (V / ".work" / "mutlogs").mkdir(parents=True, exist_ok=True)
-        (V / ".work" / "mutlogs" / ("%s-%d.log" % (pid, n))).write_text(out)
+        (V / ".work" / "mutlogs" / ("%s.log" % d.name)).write_text(out)
